@@ -107,7 +107,7 @@ PathCands(s, path, acc) ==
         \/ (x[2].tag # "IGNORE" /\ x[1] = path) }
 
 DistCands(s, name, acc) ==
-    UNION { { e \in Ents(MfAt(s, mp)) : e.tag = "DIST" /\ e.p = name } : mp \in acc }
+    UNION { { e \in Ents(MfAt(s, mp)) : e.tag = "DIST" /\ e.p = <<name>> } : mp \in acc }
 
 SameEntry(r, full, e) ==
     /\ r.tag = e.tag /\ r.p = full
